@@ -2265,4 +2265,203 @@ theorem C04_string_list_lexes_mindsdb (vs : List (List Nat × List (List Nat))) 
     lex LexRe_mindsdb.cfg (litsText vs) = .ok (litsSegs vs) :=
   C04_string_list_lexes _ classOKstr_live.2.2 classOKcomma_live.2.2 vs hne hall
 
+/-! ### lists of integers: `n1,n2,…,nk` lexes to `INTEGER (COMMA INTEGER)*` -/
+
+/-- per stop character `d` behind a digit string -/
+def stopOKnum (c : Cfg) (d : Nat) : Bool :=
+  match splitAt "INTEGER" c.rules with
+  | none => false
+  | some (pre, ir, _) =>
+    pre.all (fun r =>
+      (nonNull r.re && disjointR (first r.re) digitSet) ||
+      (needsOut digitSet r.re && noChar d r.re) ||
+      (match r.re with
+       | .alt _ b => (match idShape r.re with
+                      | some (aset, bset) => noneMemR bset digitSet && !aset.mem d && !bset.mem d
+                      | none => false) && nonNull b && disjointR (first b) digitSet
+       | _ => false)) &&
+    (match intShape ir.re with | some dd => !dd.mem d | none => false)
+
+/-- a digit string is the next token, `INTEGER`, at the end of the text or in front of a stop character -/
+theorem digits_firstMatch (c : Cfg) (hc : classOKnum c = true) (d : Nat) (hd : stopOKnum c d = true)
+    (pre a rest : List Nat) (hne : a ≠ []) (ha : ∀ x ∈ a, inSet digitSet x) (hr : rest = [] ∨ ∃ t, rest = d :: t) :
+    ∃ ir, ir.name = "INTEGER" ∧ ir.ignored = false ∧
+      firstMatch c.word c.rules ⟨pre, a ++ rest⟩ = some (ir, ⟨a.reverse ++ pre, rest⟩) := by
+  unfold classOKnum at hc
+  unfold stopOKnum at hd
+  cases hs : splitAt "INTEGER" c.rules with
+  | none => rw [hs] at hc; cases hc
+  | some x =>
+    obtain ⟨prer, ir, post⟩ := x
+    rw [hs] at hc hd
+    simp only [Bool.and_eq_true, List.all_eq_true, Bool.not_eq_true'] at hc hd
+    obtain ⟨⟨⟨hpre, hign⟩, hint⟩, _⟩ := hc
+    obtain ⟨hpred, hintd⟩ := hd
+    obtain ⟨erules, ename⟩ := splitAt_spec hs
+    cases a with
+    | nil => exact absurd rfl hne
+    | cons a0 ta =>
+      have ha0 : inSet digitSet a0 := ha a0 List.mem_cons_self
+      cases hsh : intShape ir.re with
+      | none => rw [hsh] at hint; cases hint
+      | some D =>
+        rw [hsh] at hint hintd
+        simp only [Bool.not_eq_true'] at hintd
+        have ere : ir.re = .seq (.set D) (.star true (.set D)) := intShape_spec hsh
+        have hD : ∀ x ∈ a0 :: ta, D.mem x = true := fun x hx => allMemR_sound hint (ha x hx)
+        rcases hr with h0 | ⟨t, h0⟩
+        · -- end of the text
+          subst h0
+          simp only [List.append_nil]
+          have hnone : ∀ r ∈ prer, matchAt c.word r.re ⟨pre, a0 :: ta⟩ = none := by
+            intro r hr
+            have hok := hpre r hr
+            unfold ruleOKnum at hok
+            simp only [Bool.or_eq_true] at hok
+            rcases hok with (ho | hf) | hid
+            · exact matchAt_none_of_needsOut ho (fun x hx => ha x hx)
+            · simp only [Bool.and_eq_true] at hf
+              exact matchAt_none_of_first hf.1 hf.2 (p := ⟨pre, a0 :: ta⟩) rfl ha0
+            · cases hre : r.re with
+              | alt x y =>
+                rw [hre] at hid
+                simp only [Bool.and_eq_true] at hid
+                obtain ⟨⟨hshp, hnb⟩, hfb⟩ := hid
+                cases hsp : idShape (Re.alt x y) with
+                | none => rw [hsp] at hshp; cases hshp
+                | some ab =>
+                  obtain ⟨A, B⟩ := ab
+                  rw [hsp] at hshp
+                  have ea := idShape_alt hsp rfl
+                  unfold matchAt
+                  rw [m_alt]
+                  have h1 : m c.word x ⟨pre, a0 :: ta⟩ some = none := by
+                    rw [ea]
+                    exact idCore_none c.word A B ⟨pre, a0 :: ta⟩ (fun z hz => noneMemR_sound hshp (ha z hz))
+                  have h2 : m c.word y ⟨pre, a0 :: ta⟩ some = none :=
+                    matchAt_none_of_first hnb hfb (p := ⟨pre, a0 :: ta⟩) rfl ha0
+                  rw [h1, h2]; rfl
+              | _ => rw [hre] at hid; simp at hid
+          refine ⟨ir, ename, hign, ?_⟩
+          rw [erules, firstMatch_skip prer _ hnone]
+          unfold firstMatch
+          rw [ere, plus_set_all c.word D pre a0 ta hD]
+          simp [Pos.fin]
+        · -- in front of the stop character
+          subst h0
+          have hnone : ∀ r ∈ prer, matchAt c.word r.re ⟨pre, (a0 :: ta) ++ d :: t⟩ = none := by
+            intro r hr
+            have hok := hpred r hr
+            simp only [Bool.or_eq_true, Bool.and_eq_true] at hok
+            rcases hok with (hf | ho) | hid
+            · exact matchAt_none_of_first hf.1 hf.2 (p := ⟨pre, (a0 :: ta) ++ d :: t⟩) rfl ha0
+            · exact matchAt_none_of_needsOut_at ho.1 ho.2 (fun x hx => ha x hx)
+            · cases hre : r.re with
+              | alt x y =>
+                rw [hre] at hid
+                simp only [Bool.and_eq_true] at hid
+                obtain ⟨⟨hshp, hnb⟩, hfb⟩ := hid
+                cases hsp : idShape (Re.alt x y) with
+                | none => rw [hsp] at hshp; cases hshp
+                | some ab =>
+                  obtain ⟨A, B⟩ := ab
+                  rw [hsp] at hshp
+                  simp only [Bool.and_eq_true, Bool.not_eq_true'] at hshp
+                  have ea := idShape_alt hsp rfl
+                  unfold matchAt
+                  rw [m_alt]
+                  have h1 : m c.word x ⟨pre, (a0 :: ta) ++ d :: t⟩ some = none := by
+                    rw [ea]
+                    exact idCore_none_stop c.word A B d hshp.1.2 hshp.2 t (a0 :: ta) pre
+                      (fun z hz => noneMemR_sound hshp.1.1 (ha z hz))
+                  have h2 : m c.word y ⟨pre, (a0 :: ta) ++ d :: t⟩ some = none :=
+                    matchAt_none_of_first hnb hfb (p := ⟨pre, (a0 :: ta) ++ d :: t⟩) rfl ha0
+                  rw [h1, h2]; rfl
+              | _ => rw [hre] at hid; simp at hid
+          refine ⟨ir, ename, hign, ?_⟩
+          rw [erules, firstMatch_skip prer _ hnone]
+          unfold firstMatch
+          rw [ere]
+          have := plus_set_stop c.word D d hintd pre a0 ta t hD
+          simp only [List.cons_append] at this ⊢
+          rw [this]
+
+def intsText : List (List Nat) → List Nat
+  | [] => []
+  | [a] => a
+  | a :: r => a ++ 44 :: intsText r
+
+def intsSegs : List (List Nat) → List Seg
+  | [] => []
+  | [a] => [.tok "INTEGER" false a]
+  | a :: r => .tok "INTEGER" false a :: .tok "COMMA" false [44] :: intsSegs r
+
+open MindsVerif.Props.C02Lex in
+theorem ints_steps (c : Cfg) (hc : classOKnum c = true) (hd : stopOKnum c 44 = true)
+    (hcomma : classOKsingle c "COMMA" 44 = true) :
+    ∀ (as : List (List Nat)), as ≠ [] → (∀ a ∈ as, a ≠ [] ∧ ∀ x ∈ a, inSet digitSet x) →
+    ∀ (pre : List Nat), ∃ e, e.suf = [] ∧ Steps c ⟨pre, intsText as⟩ (intsSegs as) e := by
+  have hignD : disjointR c.ignore digitSet = true := by
+    unfold classOKnum at hc
+    cases hs : splitAt "INTEGER" c.rules with
+    | none => rw [hs] at hc; cases hc
+    | some x => rw [hs] at hc; simp only [Bool.and_eq_true] at hc; exact hc.2
+  intro as
+  induction as with
+  | nil => intro h; exact absurd rfl h
+  | cons a r ih =>
+    intro _ hall pre
+    obtain ⟨hne, ha⟩ := hall a List.mem_cons_self
+    obtain ⟨a0, ta, ea⟩ : ∃ a0 ta, a = a0 :: ta := by
+      cases a with
+      | nil => exact absurd rfl hne
+      | cons a0 ta => exact ⟨a0, ta, rfl⟩
+    have hig0 : c.ignore.mem a0 = false := by
+      cases h : c.ignore.mem a0 with
+      | false => rfl
+      | true => exact (disjointR_sound hignD (mem_sound h) (ha a0 (by rw [ea]; exact List.mem_cons_self))).elim
+    cases r with
+    | nil =>
+      obtain ⟨ir, hn, hi, hfm⟩ := digits_firstMatch c hc 44 hd pre a [] hne ha (Or.inl rfl)
+      simp only [List.append_nil] at hfm
+      refine ⟨⟨a.reverse ++ pre, []⟩, rfl, ?_⟩
+      have hs : Step c ⟨pre, a⟩ (.tok ir.name ir.ignored (between ⟨pre, a⟩ ⟨a.reverse ++ pre, []⟩)) ⟨a.reverse ++ pre, []⟩ :=
+        Step.tok ⟨pre, a⟩ a0 ta ir _ ea hig0 hfm (by rw [ea]; simp)
+      have hb : between ⟨pre, a⟩ ⟨a.reverse ++ pre, []⟩ = a := by
+        have := between_adv pre a []; simpa using this
+      rw [hn, hi, hb] at hs
+      exact Steps.cons hs (Steps.nil _)
+    | cons a2 r2 =>
+      obtain ⟨ir, hn, hi, hfm⟩ := digits_firstMatch c hc 44 hd pre a (44 :: intsText (a2 :: r2)) hne ha (Or.inr ⟨_, rfl⟩)
+      obtain ⟨dr, hdn, hdi, hdig, hdfm⟩ := single_firstMatch c "COMMA" 44 hcomma (a.reverse ++ pre) (intsText (a2 :: r2))
+      obtain ⟨e, he, hrest⟩ := ih (by simp) (fun x hx => hall x (List.mem_cons_of_mem _ hx)) (44 :: (a.reverse ++ pre))
+      refine ⟨e, he, ?_⟩
+      have hs1 : Step c ⟨pre, a ++ 44 :: intsText (a2 :: r2)⟩
+          (.tok ir.name ir.ignored (between ⟨pre, a ++ 44 :: intsText (a2 :: r2)⟩ ⟨a.reverse ++ pre, 44 :: intsText (a2 :: r2)⟩))
+          ⟨a.reverse ++ pre, 44 :: intsText (a2 :: r2)⟩ :=
+        Step.tok _ a0 (ta ++ 44 :: intsText (a2 :: r2)) ir _ (by rw [ea]; rfl) hig0 hfm (by rw [ea]; simp <;> omega)
+      rw [hn, hi, between_adv pre a (44 :: intsText (a2 :: r2))] at hs1
+      have hs2 : Step c ⟨a.reverse ++ pre, 44 :: intsText (a2 :: r2)⟩
+          (.tok dr.name dr.ignored (between ⟨a.reverse ++ pre, 44 :: intsText (a2 :: r2)⟩ ⟨44 :: (a.reverse ++ pre), intsText (a2 :: r2)⟩))
+          ⟨44 :: (a.reverse ++ pre), intsText (a2 :: r2)⟩ :=
+        Step.tok _ 44 (intsText (a2 :: r2)) dr _ rfl hdig hdfm (by simp)
+      have hb2 : between ⟨a.reverse ++ pre, 44 :: intsText (a2 :: r2)⟩ ⟨44 :: (a.reverse ++ pre), intsText (a2 :: r2)⟩ = [44] := by
+        have := between_adv (a.reverse ++ pre) [44] (intsText (a2 :: r2)); simpa using this
+      rw [hdn, hdi, hb2] at hs2
+      exact Steps.cons hs1 (Steps.cons hs2 hrest)
+
+/-- **every comma-separated list of digit strings lexes to `INTEGER (COMMA INTEGER)*`** -/
+theorem C04_int_list_lexes (c : Cfg) (hc : classOKnum c = true) (hd : stopOKnum c 44 = true)
+    (hcomma : classOKsingle c "COMMA" 44 = true) (as : List (List Nat)) (hne : as ≠ [])
+    (hall : ∀ a ∈ as, a ≠ [] ∧ ∀ x ∈ a, inSet digitSet x) : lex c (intsText as) = .ok (intsSegs as) := by
+  obtain ⟨e, he, hs⟩ := ints_steps c hc hd hcomma as hne hall []
+  exact steps_lex c _ _ e hs he
+
+theorem stopOKnum_live : stopOKnum LexRe_sqlite.cfg 44 = true ∧ stopOKnum LexRe_mysql.cfg 44 = true ∧
+    stopOKnum LexRe_mindsdb.cfg 44 = true ∧ stopOKnum LexRe_mindsdb.cfg 41 = true := by decide +kernel
+
+theorem C04_int_list_lexes_mindsdb (as : List (List Nat)) (hne : as ≠ [])
+    (hall : ∀ a ∈ as, a ≠ [] ∧ ∀ x ∈ a, inSet digitSet x) : lex LexRe_mindsdb.cfg (intsText as) = .ok (intsSegs as) :=
+  C04_int_list_lexes _ classOKnum_mindsdb stopOKnum_live.2.2.1 classOKcomma_live.2.2 as hne hall
+
 end MindsVerif.Props.C04Lex
